@@ -108,7 +108,7 @@ def run(run):
     D = ('digit',)
     specs = [[None], [None, None], ['2', '1', '4', '7', '4', '8', '3', '6', D, D], ['-', '2', '1', '4', '7', '4', '8', '3', '6', D, D], [D] * 11, ['-'] + [D] * 11, ['-', None, None],
              ["'", None, None], ['"', None, None], ['`', None, None], ["'", None, '\\'], ['"', '\\', None], ['`', None, '\\'], ['"', '\\', 'u', None, None], ['"', '\\', 'u', 'd', '8', '0', '0', '"'],
-             ['[', ('digit',), ('digit',), ']'], ['[', '-', D, D, D, D, D, D, D, D, D, D, ']'], ['`', None, None, '`'], ['"', None, None, '"']]
+             ['[', ('digit',), ('digit',), ']'], ['[', '-', '2', '1', '4', '7', '4', '8', '3', '6', D, D, ']'], ['`', None, None, '`'], ['"', None, None, '"']]
     if not quick: specs += [[None, None, None], ["'", None, None, None], ['`', None, None, None, '`']]
     LJ.run_sharded(run, PROG, specs, 'mirsym: Lexer::tokenize on symbolic code points (panics, step budget)', keyprefix='c05x')
     import time as _t
